@@ -13,6 +13,10 @@
 //!     (widths, consistent complete / partial ToUnicode), documents extracted one after the other.
 //! (c) extraction: `Document::extract_text` on documents that show text with Tj / TJ through a
 //!     font with `/Encoding <name>`, before and after save+load in both cross-reference formats.
+//! (c''') font resources inherited along the page tree: /F1 and /F2 bound at the page, its parent,
+//!     grandparent, great-grandparent (several at once, to fonts with different tables), Resources
+//!     and Font dictionaries direct / behind references / behind alias objects, sibling pages that
+//!     reach a name through different nodes; the nearest binding decides.
 use lopdf::content::{Content, Operation};
 use lopdf::{decode_text_string, encode_utf16_be, encode_utf8, text_string, Dictionary, Document, Encoding, Object, Stream, StringFormat};
 use serde_json::{json, Value};
@@ -1653,6 +1657,837 @@ fn part_doc_sequences(run: &Run, repertoires: &[(String, Vec<u8>)]) {
 }
 
 // ---------------------------------------------------------------------------------------------
+// (c''') font resources inherited along the page tree (ISO 32000-1 7.7.3.4, 7.8.3)
+//
+// A page-tree document is written out as a tree: every Pages node and every page may carry a
+// /Resources entry (direct dictionary, reference, or a reference to an object that is itself a
+// reference), whose /Font entry (same three shapes) binds font names to fonts with a predefined
+// encoding (each binding direct, by reference or through an alias object). A font name used by a
+// page denotes the binding of the NEAREST node on the path page -> root that has it.
+
+#[derive(Clone, Debug, PartialEq)]
+struct FontBind {
+    name: String,
+    table: String,
+    /// 0: the font dictionary is written directly into the /Font dictionary, 1: reference, 2: alias
+    hops: u8,
+}
+
+#[derive(Clone, Debug, PartialEq)]
+struct Res {
+    /// 0: /Resources is a direct dictionary, 1: a reference, 2: a reference to a reference
+    hops: u8,
+    font_hops: u8,
+    /// /Font present even when `fonts` is empty
+    font_key: bool,
+    fonts: Vec<FontBind>,
+    /// a form XObject /Fm1 whose own resources bind /F1 to a font with this table
+    form: Option<String>,
+}
+
+impl Res {
+    fn binds(&self, name: &str) -> Option<&str> {
+        self.fonts.iter().find(|f| f.name == name).map(|f| f.table.as_str())
+    }
+}
+
+#[derive(Clone, Debug)]
+struct Show {
+    font: String,
+    /// the show starts a new BT .. ET group (the first one always does)
+    new_bt: bool,
+    /// a `Tf` precedes the show (false: the font selected before stays in force)
+    tf: bool,
+    block: Block,
+}
+
+#[derive(Clone, Debug)]
+enum Tree {
+    Pages { res: Option<Res>, kids: Vec<Tree> },
+    Page { res: Option<Res>, shows: Vec<Show>, do_form: bool },
+}
+
+fn res_to_json(r: &Option<Res>) -> Value {
+    match r {
+        None => Value::Null,
+        Some(r) => json!({"hops": r.hops, "font_hops": r.font_hops, "font_key": r.font_key, "form": r.form,
+                           "fonts": r.fonts.iter().map(|f| json!({"name": f.name, "table": f.table, "hops": f.hops})).collect::<Vec<_>>()}),
+    }
+}
+
+fn res_from_json(v: &Value) -> Option<Res> {
+    if v.is_null() {
+        return None;
+    }
+    Some(Res {
+        hops: v["hops"].as_u64().unwrap_or(0) as u8,
+        font_hops: v["font_hops"].as_u64().unwrap_or(0) as u8,
+        font_key: v["font_key"].as_bool().unwrap_or(true),
+        form: v["form"].as_str().map(|s| s.to_string()),
+        fonts: v["fonts"]
+            .as_array()
+            .map(|a| a.iter().map(|f| FontBind { name: f["name"].as_str().unwrap_or("F1").to_string(), table: f["table"].as_str().unwrap_or("").to_string(), hops: f["hops"].as_u64().unwrap_or(1) as u8 }).collect())
+            .unwrap_or_default(),
+    })
+}
+
+fn tree_to_json(t: &Tree) -> Value {
+    match t {
+        Tree::Pages { res, kids } => json!({"pages": {"resources": res_to_json(res), "kids": kids.iter().map(tree_to_json).collect::<Vec<_>>()}}),
+        Tree::Page { res, shows, do_form } => json!({"page": {"resources": res_to_json(res), "do_form": do_form,
+            "shows": shows.iter().map(|s| json!({"font": s.font, "new_bt": s.new_bt, "tf": s.tf, "block": blocks_to_json(std::slice::from_ref(&s.block))[0]})).collect::<Vec<_>>()}}),
+    }
+}
+
+fn tree_from_json(v: &Value) -> Tree {
+    if let Some(p) = v.get("pages") {
+        Tree::Pages { res: res_from_json(&p["resources"]), kids: p["kids"].as_array().map(|a| a.iter().map(tree_from_json).collect()).unwrap_or_default() }
+    } else {
+        let p = &v["page"];
+        Tree::Page {
+            res: res_from_json(&p["resources"]),
+            do_form: p["do_form"].as_bool().unwrap_or(false),
+            shows: p["shows"]
+                .as_array()
+                .map(|a| {
+                    a.iter()
+                        .map(|s| Show {
+                            font: s["font"].as_str().unwrap_or("F1").to_string(),
+                            new_bt: s["new_bt"].as_bool().unwrap_or(true),
+                            tf: s["tf"].as_bool().unwrap_or(true),
+                            block: blocks_from_json(&Value::Array(vec![s["block"].clone()])).pop().unwrap_or(Block { bytes: vec![], tj_array: false, hex: false, pieces: 0 }),
+                        })
+                        .collect()
+                })
+                .unwrap_or_default(),
+        }
+    }
+}
+
+/// `o` behind `hops` indirect objects (2: an object whose value is a reference to the object).
+fn behind(doc: &mut Document, o: Object, hops: u8) -> Object {
+    let mut o = o;
+    for _ in 0..hops {
+        o = Object::Reference(doc.add_object(o));
+    }
+    o
+}
+
+fn res_value(doc: &mut Document, r: &Res) -> Object {
+    let mut res = Dictionary::new();
+    res.set("ProcSet", Object::Array(vec![Object::Name(b"PDF".to_vec()), Object::Name(b"Text".to_vec())]));
+    if r.font_key || !r.fonts.is_empty() {
+        let mut fonts = Dictionary::new();
+        for f in &r.fonts {
+            let v = behind(doc, Object::Dictionary(font_dict(&f.table)), f.hops);
+            fonts.set(f.name.as_bytes().to_vec(), v);
+        }
+        let v = behind(doc, Object::Dictionary(fonts), r.font_hops);
+        res.set("Font", v);
+    }
+    if let Some(t) = &r.form {
+        let font_id = doc.add_object(font_dict(t));
+        let mut ffonts = Dictionary::new();
+        ffonts.set("F1", Object::Reference(font_id));
+        let mut fres = Dictionary::new();
+        fres.set("Font", Object::Dictionary(ffonts));
+        let mut fd = Dictionary::new();
+        fd.set("Type", Object::Name(b"XObject".to_vec()));
+        fd.set("Subtype", Object::Name(b"Form".to_vec()));
+        fd.set("BBox", Object::Array(vec![0.into(), 0.into(), 10.into(), 10.into()]));
+        fd.set("Resources", Object::Dictionary(fres));
+        // selects its own /F1 and shows nothing
+        let form_id = doc.add_object(Stream::new(fd, b"/F1 12 Tf".to_vec()));
+        let mut xo = Dictionary::new();
+        xo.set("Fm1", Object::Reference(form_id));
+        res.set("XObject", Object::Dictionary(xo));
+    }
+    behind(doc, Object::Dictionary(res), r.hops)
+}
+
+fn content_of_shows(shows: &[Show], do_form: bool) -> Vec<u8> {
+    let mut ops = vec![];
+    let mut open = false;
+    let mut form_done = !do_form;
+    let form_ops = |ops: &mut Vec<Operation>| {
+        ops.push(Operation::new("q", vec![]));
+        ops.push(Operation::new("Do", vec![Object::Name(b"Fm1".to_vec())]));
+        ops.push(Operation::new("Q", vec![]));
+    };
+    for (k, s) in shows.iter().enumerate() {
+        if k == 0 || s.new_bt {
+            if open {
+                ops.push(Operation::new("ET", vec![]));
+                if !form_done {
+                    form_ops(&mut ops);
+                    form_done = true;
+                }
+            }
+            ops.push(Operation::new("BT", vec![]));
+            ops.push(Operation::new("Td", vec![Object::Integer(100), Object::Integer(600)]));
+            open = true;
+        }
+        if s.tf {
+            ops.push(Operation::new("Tf", vec![Object::Name(s.font.as_bytes().to_vec()), Object::Integer(12)]));
+        }
+        ops.push(show_operation(&s.block));
+    }
+    if open {
+        ops.push(Operation::new("ET", vec![]));
+    }
+    if !form_done {
+        form_ops(&mut ops);
+    }
+    Content { operations: ops }.encode().expect("encode")
+}
+
+fn build_tree(doc: &mut Document, t: &Tree, parent: Option<(u32, u16)>, res_first: bool) -> ((u32, u16), i64) {
+    match t {
+        Tree::Pages { res, kids } => {
+            let id = doc.new_object_id();
+            // object numbers: the Resources of a Pages node before (lower than) or after those of its descendants
+            let early = match res {
+                Some(r) if res_first => Some(res_value(doc, r)),
+                _ => None,
+            };
+            let mut kid_refs = vec![];
+            let mut count = 0;
+            for k in kids {
+                let (kid, n) = build_tree(doc, k, Some(id), res_first);
+                kid_refs.push(Object::Reference(kid));
+                count += n;
+            }
+            let mut node = Dictionary::new();
+            node.set("Type", Object::Name(b"Pages".to_vec()));
+            node.set("Count", Object::Integer(count));
+            node.set("Kids", Object::Array(kid_refs));
+            match parent {
+                Some(p) => node.set("Parent", Object::Reference(p)),
+                None => node.set("MediaBox", Object::Array(vec![0.into(), 0.into(), 595.into(), 842.into()])),
+            }
+            if let Some(v) = early {
+                node.set("Resources", v);
+            } else if let Some(r) = res {
+                let v = res_value(doc, r);
+                node.set("Resources", v);
+            }
+            doc.objects.insert(id, Object::Dictionary(node));
+            (id, count)
+        }
+        Tree::Page { res, shows, do_form } => {
+            let content_id = doc.add_object(Stream::new(Dictionary::new(), content_of_shows(shows, *do_form)));
+            let mut page = Dictionary::new();
+            page.set("Type", Object::Name(b"Page".to_vec()));
+            if let Some(p) = parent {
+                page.set("Parent", Object::Reference(p));
+            }
+            page.set("Contents", Object::Reference(content_id));
+            if let Some(r) = res {
+                let v = res_value(doc, r);
+                page.set("Resources", v);
+            }
+            (doc.add_object(page), 1)
+        }
+    }
+}
+
+fn tree_doc(t: &Tree, compress: bool, res_first: bool) -> Document {
+    let mut doc = Document::with_version("1.5");
+    let (root, _) = build_tree(&mut doc, t, None, res_first);
+    let mut cat = Dictionary::new();
+    cat.set("Type", Object::Name(b"Catalog".to_vec()));
+    cat.set("Pages", Object::Reference(root));
+    let cat_id = doc.add_object(cat);
+    doc.trailer.set("Root", Object::Reference(cat_id));
+    if compress {
+        doc.compress();
+    }
+    doc
+}
+
+/// The pages of the tree in document order, each with the Resources of the nodes on its path,
+/// nearest (the page's own) first.
+fn tree_pages<'a>(t: &'a Tree, above: &mut Vec<Option<&'a Res>>, out: &mut Vec<(Vec<Option<&'a Res>>, &'a [Show])>) {
+    match t {
+        Tree::Pages { res, kids } => {
+            above.push(res.as_ref());
+            for k in kids {
+                tree_pages(k, above, out);
+            }
+            above.pop();
+        }
+        Tree::Page { res, shows, .. } => {
+            let mut chain = vec![res.as_ref()];
+            chain.extend(above.iter().rev().cloned());
+            out.push((chain, shows));
+        }
+    }
+}
+
+#[derive(Clone, Debug, PartialEq)]
+enum Bound {
+    /// bound by the nearest node that has Resources at all: what ISO 32000-1 7.7.3.4 defines
+    Nearest(String),
+    /// the nearest Resources dictionary does not bind the name, one further up does (nearest such)
+    FurtherUp(String),
+    Nowhere,
+}
+
+fn resolve_name(chain: &[Option<&Res>], name: &str) -> Bound {
+    if let Some(t) = chain.iter().flatten().next().and_then(|r| r.binds(name)) {
+        return Bound::Nearest(t.to_string());
+    }
+    match chain.iter().flatten().find_map(|r| r.binds(name)) {
+        Some(t) => Bound::FurtherUp(t.to_string()),
+        None => Bound::Nowhere,
+    }
+}
+
+/// The text extraction must return for one page under a name -> table assignment (None: the
+/// strings shown with that name contribute nothing). What `extract_text` adds by construction is
+/// added: a space after a TJ array, a line feed at ET unless the text since the last Tf ends in one.
+fn page_text(shows: &[Show], table_of: &dyn Fn(&str) -> Option<String>) -> Result<String, String> {
+    let mut out = String::new();
+    let mut cur = String::new();
+    let mut font: Option<String> = None;
+    let mut open = false;
+    let et = |cur: &mut String| {
+        if !cur.ends_with('\n') {
+            cur.push('\n');
+        }
+    };
+    for (k, s) in shows.iter().enumerate() {
+        if k == 0 || s.new_bt {
+            if open {
+                et(&mut cur);
+            }
+            open = true;
+        }
+        if s.tf {
+            font = Some(s.font.clone());
+            out.push_str(&cur);
+            cur.clear();
+        }
+        if let Some(table) = font.as_deref().and_then(table_of) {
+            let t = with_encoding(&table, |e| dec(e, &s.block.bytes))??;
+            cur.push_str(&t);
+            if s.block.tj_array {
+                cur.push(' ');
+            }
+        }
+    }
+    if open {
+        et(&mut cur);
+    }
+    out.push_str(&cur);
+    Ok(out)
+}
+
+/// The accepted texts of one page (first: every name resolved to its nearest binding) and whether
+/// the page uses a name its nearest Resources dictionary does not bind.
+fn page_alternatives(chain: &[Option<&Res>], shows: &[Show]) -> Result<(Vec<String>, bool), String> {
+    let mut names: Vec<&str> = vec![];
+    for s in shows {
+        if s.tf && !names.contains(&s.font.as_str()) {
+            names.push(&s.font);
+        }
+    }
+    let bounds: Vec<Bound> = names.iter().map(|n| resolve_name(chain, n)).collect();
+    let loose: Vec<usize> = (0..names.len()).filter(|i| matches!(bounds[*i], Bound::FurtherUp(_))).collect();
+    let mut alts: Vec<String> = vec![];
+    for mask in 0..(1u32 << loose.len()) {
+        let table_of = |n: &str| -> Option<String> {
+            let i = names.iter().position(|x| *x == n)?;
+            match &bounds[i] {
+                Bound::Nearest(t) => Some(t.clone()),
+                Bound::FurtherUp(t) => {
+                    let bit = loose.iter().position(|x| *x == i).unwrap_or(0);
+                    if mask >> bit & 1 == 1 {
+                        None
+                    } else {
+                        Some(t.clone())
+                    }
+                }
+                Bound::Nowhere => None,
+            }
+        };
+        let t = page_text(shows, &table_of)?;
+        if !alts.contains(&t) {
+            alts.push(t);
+        }
+    }
+    Ok((alts, !loose.is_empty()))
+}
+
+fn matches_pages(got: &str, order: &[u32], alts: &[Vec<String>]) -> bool {
+    match order.first() {
+        None => got.is_empty(),
+        Some(p) => alts.get(*p as usize - 1).map(|a| a.iter().any(|t| got.starts_with(t.as_str()) && matches_pages(&got[t.len()..], &order[1..], alts))).unwrap_or(false),
+    }
+}
+
+const EXPECT_TREE: &str = "extract_text(pages) == for every listed page, in order, its shown strings decoded with the encoding of the font that the NEAREST node on the path page -> root binds to the name selected by Tf (+ the space after a TJ array, the line feed at ET)";
+
+/// Returns (extract calls, first failure).
+fn check_tree(t: &Tree, orders: &[Vec<u32>], compress: bool, res_first: bool) -> (u64, Option<String>) {
+    let mut pages = vec![];
+    tree_pages(t, &mut vec![], &mut pages);
+    let mut alts: Vec<Vec<String>> = vec![];
+    for (chain, shows) in &pages {
+        match page_alternatives(chain, shows) {
+            Ok((a, _)) => alts.push(a),
+            Err(m) => return (0, Some(m)),
+        }
+    }
+    let describe = |order: &[u32]| -> String {
+        order
+            .iter()
+            .map(|p| {
+                let (chain, shows) = &pages[*p as usize - 1];
+                let mut names: Vec<&str> = vec![];
+                for s in shows.iter() {
+                    if !names.contains(&s.font.as_str()) {
+                        names.push(&s.font);
+                    }
+                }
+                let per: Vec<String> = names
+                    .iter()
+                    .map(|n| {
+                        let levels: Vec<String> = chain.iter().enumerate().filter_map(|(l, r)| r.and_then(|r| r.binds(n)).map(|t| format!("level {} {}", l, t))).collect();
+                        format!("/{}: {}", n, levels.join(", "))
+                    })
+                    .collect();
+                format!("page {} [{}]", p, per.join("; "))
+            })
+            .collect::<Vec<_>>()
+            .join(" ")
+    };
+    let doc = tree_doc(t, compress, res_first);
+    let mut n = 0;
+    let stages: [(&str, Option<bool>); 3] = [("built document", None), ("after save (table) + load", Some(true)), ("after save (stream) + load", Some(false))];
+    for (label, fmt) in stages {
+        let d = match fmt {
+            None => doc.clone(),
+            Some(tb) => match util::save_bytes(&doc, tb).and_then(|b| util::load(&b)) {
+                Ok(d) => d,
+                Err(e) => return (n, Some(format!("{}: {}", label, e))),
+            },
+        };
+        for (k, order) in orders.iter().enumerate() {
+            let want: String = order.iter().map(|p| alts[*p as usize - 1][0].as_str()).collect();
+            n += 1;
+            match extract_pages(&d, order) {
+                Err(e) => return (n, Some(format!("{}, pages {:?}: {}", label, order, e))),
+                Ok(got) if !matches_pages(&got, order, &alts) => {
+                    return (n, Some(format!("{}, extract_text(&{:?}) (bindings, level 0 = the page: {}): {}", label, order, describe(order), diff_text(&got, &want))));
+                }
+                Ok(_) => {}
+            }
+            if k == 0 {
+                // the sibling entry point
+                n += 1;
+                match util::guard(|| d.extract_text_chunks(order)) {
+                    Err(p) => return (n, Some(format!("{}: extract_text_chunks {}", label, p))),
+                    Ok(chunks) => {
+                        let mut joined = String::new();
+                        for c in chunks {
+                            match c {
+                                Ok(t) => joined.push_str(&t),
+                                Err(e) => return (n, Some(format!("{}: extract_text_chunks(&{:?}) returned an error chunk: {}", label, order, e))),
+                            }
+                        }
+                        if !matches_pages(&joined, order, &alts) {
+                            return (n, Some(format!("{}, extract_text_chunks(&{:?}) joined (bindings: {}): {}", label, order, describe(order), diff_text(&joined, &want))));
+                        }
+                    }
+                }
+            }
+        }
+    }
+    (n, None)
+}
+
+/// The same tree with every DIRECT /Resources dictionary of a Pages node moved behind a reference.
+fn ancestors_by_reference(t: &Tree) -> (Tree, bool) {
+    match t {
+        Tree::Pages { res, kids } => {
+            let mut changed = false;
+            let res = res.clone().map(|mut r| {
+                if r.hops == 0 {
+                    r.hops = 1;
+                    changed = true;
+                }
+                r
+            });
+            let kids = kids
+                .iter()
+                .map(|k| {
+                    let (k2, c) = ancestors_by_reference(k);
+                    changed |= c;
+                    k2
+                })
+                .collect();
+            (Tree::Pages { res, kids }, changed)
+        }
+        page => (page.clone(), false),
+    }
+}
+
+/// Narrow attribution: some Pages node carries its /Resources as a direct dictionary, AND the same
+/// document with exactly those dictionaries moved behind references extracts as expected.
+fn classify_tree(t: &Tree, orders: &[Vec<u32>], compress: bool, res_first: bool) -> Option<&'static str> {
+    let (neutral, changed) = ancestors_by_reference(t);
+    if changed && check_tree(&neutral, orders, compress, res_first).1.is_none() {
+        Some("inherited-resources-direct-dict")
+    } else {
+        None
+    }
+}
+
+struct Tabs {
+    names: Vec<String>,
+    reps: Vec<Vec<u8>>,
+    cells: Vec<Vec<Option<String>>>,
+}
+
+impl Tabs {
+    fn new(repertoires: &[(String, Vec<u8>)]) -> Tabs {
+        let cell = |t: &str, b: u8| -> Option<String> { with_encoding(t, |e| dec(e, &[b])).ok().and_then(|r| r.ok()).filter(|s| !s.is_empty()) };
+        Tabs {
+            names: repertoires.iter().map(|r| r.0.clone()).collect(),
+            reps: repertoires.iter().map(|r| r.1.clone()).collect(),
+            cells: repertoires.iter().map(|r| (0..=255u8).map(|b| cell(&r.0, b)).collect()).collect(),
+        }
+    }
+    fn index(&self, table: &str) -> usize {
+        self.names.iter().position(|n| n == table).unwrap_or(0)
+    }
+    /// no table turns the byte into text with a line feed (the line feed at ET stays unambiguous)
+    fn safe(&self, b: u8) -> bool {
+        self.cells.iter().all(|c| c[b as usize].as_deref().map(|s| !s.contains('\n') && !s.contains('\r')).unwrap_or(true))
+    }
+    /// Bytes to show with table `a` when the `rivals` are bound to the same name elsewhere: every
+    /// byte of a's repertoire that some rival decodes differently (or not at all), then up to six
+    /// bytes all of them decode alike; without rivals (or equal tables) the repertoire.
+    fn text(&self, a: usize, rivals: &[usize]) -> Vec<u8> {
+        let rep: Vec<u8> = self.reps[a].iter().cloned().filter(|b| self.safe(*b)).collect();
+        let mut d: Vec<u8> = rep.iter().cloned().filter(|&x| rivals.iter().any(|&r| self.cells[a][x as usize] != self.cells[r][x as usize])).collect();
+        if d.is_empty() {
+            return rep;
+        }
+        let common: Vec<u8> = rep.iter().cloned().filter(|&x| rivals.iter().all(|&r| self.cells[a][x as usize] == self.cells[r][x as usize])).take(6).collect();
+        d.extend(common);
+        d
+    }
+}
+
+fn tables_of_tree(t: &Tree, out: &mut Vec<String>) {
+    let mut take = |r: &Option<Res>| {
+        if let Some(r) = r {
+            for f in &r.fonts {
+                if !out.contains(&f.table) {
+                    out.push(f.table.clone());
+                }
+            }
+            if let Some(f) = &r.form {
+                if !out.contains(f) {
+                    out.push(f.clone());
+                }
+            }
+        }
+    };
+    match t {
+        Tree::Pages { res, kids } => {
+            take(res);
+            for k in kids {
+                tables_of_tree(k, out);
+            }
+        }
+        Tree::Page { res, .. } => take(res),
+    }
+}
+
+/// Gives every page its content: each name bound somewhere on the page's path is selected and
+/// used - first name in a group of its own, the further names by a Tf inside the same group, then
+/// every name again in a second group (TJ); a page that draws the form afterwards shows one more
+/// string without a new Tf. The bytes are those on which the tables of the document differ.
+fn fill_shows(t: &mut Tree, tabs: &Tabs) {
+    let mut all = vec![];
+    tables_of_tree(t, &mut all);
+    let all: Vec<usize> = all.iter().map(|n| tabs.index(n)).collect();
+    fn go(t: &mut Tree, above: &mut Vec<Option<Res>>, tabs: &Tabs, all: &[usize]) {
+        match t {
+            Tree::Pages { res, kids } => {
+                above.push(res.clone());
+                for k in kids {
+                    go(k, above, tabs, all);
+                }
+                above.pop();
+            }
+            Tree::Page { res, shows, do_form } => {
+                let mut chain: Vec<Option<&Res>> = vec![res.as_ref()];
+                chain.extend(above.iter().rev().map(|r| r.as_ref()));
+                let mut names: Vec<String> = vec![];
+                for r in chain.iter().flatten() {
+                    for f in &r.fonts {
+                        if !names.contains(&f.name) {
+                            names.push(f.name.clone());
+                        }
+                    }
+                }
+                names.sort();
+                let mut texts: Vec<(String, Vec<u8>)> = vec![];
+                for n in &names {
+                    let table = match resolve_name(&chain, n) {
+                        Bound::Nearest(t) | Bound::FurtherUp(t) => t,
+                        Bound::Nowhere => continue,
+                    };
+                    let a = tabs.index(&table);
+                    let rivals: Vec<usize> = all.iter().cloned().filter(|r| *r != a).collect();
+                    texts.push((n.clone(), tabs.text(a, &rivals)));
+                }
+                shows.clear();
+                for (k, (n, bytes)) in texts.iter().enumerate() {
+                    shows.push(Show { font: n.clone(), new_bt: k == 0, tf: true, block: Block { bytes: bytes.clone(), tj_array: false, hex: k % 2 == 1, pieces: 0 } });
+                }
+                if texts.len() > 1 {
+                    // back to the first name inside the same group
+                    shows.push(Show { font: texts[0].0.clone(), new_bt: false, tf: true, block: Block { bytes: texts[0].1.clone(), tj_array: false, hex: true, pieces: 0 } });
+                }
+                for (k, (n, bytes)) in texts.iter().enumerate() {
+                    shows.push(Show { font: n.clone(), new_bt: k == 0, tf: true, block: Block { bytes: bytes.clone(), tj_array: true, hex: k % 2 == 0, pieces: 3 } });
+                }
+                if *do_form {
+                    if let Some((n, bytes)) = texts.first() {
+                        // the name selected last stays in force across the form
+                        let last = texts.last().map(|t| t.0.clone()).unwrap_or(n.clone());
+                        let b = texts.last().map(|t| t.1.clone()).unwrap_or(bytes.clone());
+                        shows.push(Show { font: last, new_bt: true, tf: false, block: Block { bytes: b, tj_array: false, hex: false, pieces: 0 } });
+                    }
+                }
+            }
+        }
+    }
+    go(t, &mut vec![], tabs, &all);
+}
+
+fn count_pages(t: &Tree) -> usize {
+    match t {
+        Tree::Pages { kids, .. } => kids.iter().map(count_pages).sum(),
+        Tree::Page { .. } => 1,
+    }
+}
+
+/// Page orders for one extract_text call: every single page, every order of all pages, and
+/// orders that come back to a page.
+fn orders_for(n: usize) -> Vec<Vec<u32>> {
+    let mut v: Vec<Vec<u32>> = vec![];
+    if n == 1 {
+        return vec![vec![1], vec![1, 1]];
+    }
+    for i in 0..vharness::gen::factorial(n) {
+        v.push(vharness::gen::nth_permutation(n, i).iter().map(|p| *p as u32 + 1).collect());
+    }
+    for p in 1..=n as u32 {
+        v.push(vec![p]);
+    }
+    v.push(vec![1, n as u32, 1]);
+    v.push(vec![n as u32, 1, n as u32]);
+    v
+}
+
+fn bind(name: &str, table: &str, hops: u8) -> FontBind {
+    FontBind { name: name.to_string(), table: table.to_string(), hops }
+}
+
+fn res(hops: u8, font_hops: u8, fonts: Vec<FontBind>) -> Res {
+    Res { hops, font_hops, font_key: true, fonts, form: None }
+}
+
+fn page(res: Option<Res>) -> Tree {
+    Tree::Page { res, shows: vec![], do_form: false }
+}
+
+/// A single path: `levels[0]` is the page's Resources, `levels[d]` the root's.
+fn path_tree(levels: &[Option<Res>]) -> Tree {
+    let mut t = page(levels[0].clone());
+    for l in &levels[1..] {
+        t = Tree::Pages { res: l.clone(), kids: vec![t] };
+    }
+    t
+}
+
+fn part_inheritance(run: &Run, repertoires: &[(String, Vec<u8>)]) {
+    let tabs = Tabs::new(repertoires);
+    let nt = tabs.names.len();
+    if nt < 5 {
+        return; // reported by part_tables
+    }
+    let name = |i: usize| tabs.names[i % nt].as_str();
+    let mut docs: Vec<(&'static str, Tree)> = vec![];
+    let hop_menu: Vec<u8> = if run.thorough { vec![0, 1, 2] } else { vec![0, 1] };
+
+    // (1) pairs: /F1 -> a, /F2 -> b at the near level i, /F1 -> b, /F2 -> a at the far level j > i,
+    // every ordered pair of tables (equal tables: controls), every depth 1..3 and every i < j,
+    // Resources and Font each direct / behind a reference (thorough: / behind an alias) at both levels
+    for a in 0..nt {
+        for b in 0..nt {
+            for d in 1..=3usize {
+                for i in 0..d {
+                    for j in i + 1..=d {
+                        for &rh_i in &hop_menu {
+                            for &fh_i in &hop_menu {
+                                for &rh_j in &hop_menu {
+                                    for &fh_j in &hop_menu {
+                                        let mut levels: Vec<Option<Res>> = vec![None; d + 1];
+                                        levels[i] = Some(res(rh_i, fh_i, vec![bind("F1", name(a), 1), bind("F2", name(b), 0)]));
+                                        levels[j] = Some(res(rh_j, fh_j, vec![bind("F1", name(b), 0), bind("F2", name(a), 1)]));
+                                        docs.push(("inherit_pairs", path_tree(&levels)));
+                                    }
+                                }
+                            }
+                        }
+                    }
+                }
+            }
+        }
+    }
+    let n_pairs = docs.len();
+
+    // (2) levels: every assignment of {no Resources, Resources that do not bind /F1, Resources
+    // binding /F1 to the level's own table} to the levels of a path of depth 1..3 with /F1 bound
+    // at least once; the tables rotate through the five; four reference shapes; two ways of not
+    // binding /F1 (no /Font entry at all; a /Font dictionary that binds only /F10)
+    let level_menu: u32 = 3;
+    for d in 1..=3usize {
+        for cfg in 0..level_menu.pow(d as u32 + 1) {
+            let opt = |l: usize| (cfg / level_menu.pow(l as u32)) % level_menu;
+            if !(0..=d).any(|l| opt(l) == 2) {
+                continue;
+            }
+            for rot in 0..nt {
+                for shape in 0..4u8 {
+                    for decoy in 0..2 {
+                        if decoy == 1 && !(0..=d).any(|l| opt(l) == 1) {
+                            continue;
+                        }
+                        let hops = |l: usize| -> (u8, u8, u8) {
+                            match shape {
+                                0 => (1, 0, 1),
+                                1 => (0, 1, 0),
+                                2 => ((l % 2) as u8, ((l + 1) % 2) as u8, 1),
+                                _ => (2, 2, 2),
+                            }
+                        };
+                        let levels: Vec<Option<Res>> = (0..=d)
+                            .map(|l| {
+                                let (rh, fh, bh) = hops(l);
+                                match opt(l) {
+                                    0 => None,
+                                    1 if decoy == 0 => Some(Res { hops: rh, font_hops: fh, font_key: false, fonts: vec![], form: None }),
+                                    1 => Some(res(rh, fh, vec![bind("F10", name(rot + l + 2), bh)])),
+                                    _ => Some(res(rh, fh, vec![bind("F1", name(rot + l), bh)])),
+                                }
+                            })
+                            .collect();
+                        docs.push(("inherit_levels", path_tree(&levels)));
+                    }
+                }
+            }
+        }
+    }
+    let n_levels = docs.len() - n_pairs;
+
+    // (3) siblings: pages under different parents (and next to each other) that reach the same
+    // name through different nodes; every ordered pair of tables, a third one at the root
+    for a in 0..nt {
+        for b in 0..nt {
+            if a == b {
+                continue;
+            }
+            let c = (0..nt).find(|c| *c != a && *c != b).unwrap_or(0);
+            for h in 0..2u8 {
+                let r1 = |t: usize| Some(res(1 - h, h, vec![bind("F1", name(t), 1)]));
+                let r2 = |t: usize, u: usize| Some(res(1 - h, h, vec![bind("F1", name(t), 1), bind("F2", name(u), 1)]));
+                let own = |t: usize| Some(res(h, 1 - h, vec![bind("F1", name(t), h)]));
+                let node = |res: Option<Res>, kids: Vec<Tree>| Tree::Pages { res, kids };
+                // two parents binding the name differently, the pages have nothing of their own
+                docs.push(("inherit_siblings", node(None, vec![node(r1(a), vec![page(None)]), node(r1(b), vec![page(None)])])));
+                // one parent overrides the root, the other passes the root's binding on
+                docs.push(("inherit_siblings", node(r1(b), vec![node(r1(a), vec![page(None)]), node(None, vec![page(None)])])));
+                // two pages of one parent: one with its own binding, one inheriting
+                docs.push(("inherit_siblings", node(r1(b), vec![node(None, vec![page(own(a)), page(None)])])));
+                // two names swapped between root and parent; a page directly under the root
+                docs.push(("inherit_siblings", node(r2(a, b), vec![node(r2(b, a), vec![page(None)]), page(None)])));
+                // own / through the parent / through the root, three tables
+                docs.push(("inherit_siblings", node(r1(c), vec![page(own(a)), node(r1(b), vec![page(None)]), page(None)])));
+                // four pages, two parents, own bindings crossing the parents' ones
+                docs.push(("inherit_siblings", node(None, vec![node(r1(a), vec![page(own(b)), page(None)]), node(r1(b), vec![page(own(a)), page(None)])])));
+                // a form XObject whose own resources bind /F1 to another table is drawn between two groups
+                let mut with_form = own(a).unwrap();
+                with_form.form = Some(name(b).to_string());
+                docs.push(("inherit_siblings", node(r1(b), vec![Tree::Page { res: Some(with_form.clone()), shows: vec![], do_form: true }, page(None)])));
+                // the form is inherited with the Resources of the parent
+                let mut parent_form = r1(a).unwrap();
+                parent_form.form = Some(name(b).to_string());
+                docs.push(("inherit_siblings", node(None, vec![node(Some(parent_form), vec![Tree::Page { res: None, shows: vec![], do_form: true }])])));
+            }
+        }
+    }
+    let n_siblings = docs.len() - n_pairs - n_levels;
+
+    for (_, t) in docs.iter_mut() {
+        fill_shows(t, &tabs);
+    }
+    let calls = AtomicU64::new(0);
+    let loose_docs = AtomicU64::new(0);
+    let overriding = AtomicU64::new(0);
+    util::par_for(docs.len() * 2, |i| {
+        let (part, t) = &docs[i / 2];
+        // the Resources objects of Pages nodes numbered below / above those of their descendants
+        let res_first = i % 2 == 1;
+        let compress = (i / 2).count_ones() % 2 == 1;
+        let orders = orders_for(count_pages(t));
+        let mut pages = vec![];
+        tree_pages(t, &mut vec![], &mut pages);
+        if i % 2 == 0 && pages.iter().any(|(chain, shows)| page_alternatives(chain, shows).map(|a| a.1).unwrap_or(false)) {
+            loose_docs.fetch_add(1, Ordering::Relaxed);
+        }
+        // a name bound at two nodes of one path to different tables
+        if i % 2 == 0 && pages.iter().any(|(chain, _)| {
+            let b: Vec<&str> = chain.iter().flatten().filter_map(|r| r.binds("F1")).collect();
+            b.windows(2).any(|w| w[0] != w[1])
+        }) {
+            overriding.fetch_add(1, Ordering::Relaxed);
+        }
+        let (n, r) = check_tree(t, &orders, compress, res_first);
+        calls.fetch_add(n, Ordering::Relaxed);
+        run.eval(n);
+        let case = json!({"kind": "tree", "part": part, "tree": tree_to_json(t), "orders": orders, "compress": compress, "resources_numbered_first": res_first});
+        run.nontrivial_hash(vharness::run::fnv(case.to_string().as_bytes()));
+        if let Some(m) = r {
+            run.fail(classify_tree(t, &orders, compress, res_first), case, &m, EXPECT_TREE);
+        }
+    });
+    run.add("extraction_docs", docs.len() as u64 * 2);
+    run.add("inherit_docs", docs.len() as u64 * 2);
+    run.set(
+        "inheritance",
+        json!({"pairs_trees": n_pairs, "levels_trees": n_levels, "siblings_trees": n_siblings, "documents_per_tree": "2 (Resources objects of Pages nodes numbered below / above those of their descendants)",
+               "trees_with_a_name_bound_to_different_tables_on_one_path": overriding.load(Ordering::Relaxed),
+               "trees_using_a_name_the_nearest_resources_do_not_bind": loose_docs.load(Ordering::Relaxed),
+               "extract_calls": calls.load(Ordering::Relaxed),
+               "reference_shapes": if run.thorough { "Resources / Font / font each direct, behind a reference, behind an alias object" } else { "Resources / Font each direct or behind a reference (pairs); levels: four shapes incl. alias objects" }}),
+    );
+    if let Some((part, t)) = docs.get(n_pairs / 2) {
+        run.sample(json!({"part": format!("c-{}", part), "tree": tree_to_json(t)}));
+    }
+    if let Some((part, t)) = docs.last() {
+        run.sample(json!({"part": format!("c-{}", part), "tree": tree_to_json(t)}));
+    }
+}
+
+// ---------------------------------------------------------------------------------------------
 
 fn main() {
     let run = Run::from_args("C16", "exploration");
@@ -1676,8 +2511,29 @@ fn main() {
          (string decoded first, string round-tripped next) on a thread of their own; long byte strings through each table (every \
          lead length, every pair of UTF-8 length classes, cycles at 2^k); extraction of long strings and of 1000 groups; font \
          variants (widths / descriptor, consistent complete and partial /ToUnicode) x table x every repertoire byte; documents \
-         extracted one after the other on one thread (every ordered pair of tables). All cases \
-         count as non-trivial except totality strings over {00,41}; distinct by construction",
+         extracted one after the other on one thread (every ordered pair of tables); page-tree inheritance of font resources: \
+         (1) every ordered pair of tables (a, b) incl. a = b x path depth 1..3 x every pair of levels i < j (0 = the page) with \
+         /F1 -> a, /F2 -> b at i and /F1 -> b, /F2 -> a at j x Resources {direct, reference} x Font {direct, reference} at both \
+         levels (thorough: also alias objects); (2) every assignment of {no Resources, Resources not binding /F1, Resources \
+         binding /F1} to the levels of a path of depth 1..3 x 5 table rotations x 4 reference shapes x 2 ways of not binding; \
+         (3) eight sibling shapes (two parents binding the name differently, own / parent / root bindings side by side, a form \
+         XObject with resources of its own) x every ordered pair of different tables x 2 reference shapes; every tree as two documents (object numbers of the Resources of Pages nodes below / above those of their descendants); each page selects \
+         every name bound on its path (Tf switches inside one BT group, a second group with TJ) and shows the bytes on which \
+         the document's tables differ; extract_text for every single page, every order of all pages and orders that return \
+         to a page, before and after save+load in both formats. All cases \
+         count as non-trivial except totality strings over {00,41}; distinct by construction (inheritance documents: by hash)",
+    );
+    run.assume(
+        "inheritance: a font name selected by Tf denotes the binding of the NEAREST node on the path page -> root whose Resources bind it. \
+         Where the nearest node that has Resources at all binds the name (every document of families (1) and (3), and those of (2) \
+         without a non-binding Resources dictionary below the binding one) this is exactly ISO 32000-1 7.7.3.4 / Table 30: an inheritable \
+         entry is taken from the nearest ancestor that has it. Where a nearer Resources dictionary exists but does not bind the name \
+         (counted under inheritance.trees_using_a_name_the_nearest_resources_do_not_bind) the specification leaves the name undefined on \
+         that page; the unchanged lopdf merges the dictionaries of the whole path, nearest first. For those names the check accepts both \
+         readings - the nearest binding further up, or no text for the strings shown with that name - and nothing else (in particular \
+         not a binding that lies behind a nearer one). Bytes that some table decodes to text containing a line feed or carriage return \
+         are not shown in this family (the line feed extract_text adds at ET stays unambiguous); extract_text does not descend into \
+         form XObjects: the form of family (3) shows nothing and only selects its own /F1",
     );
     run.assume("the published tables are those written into this check: Microsoft cp1252 and Apple Mac OS Roman as shipped with Python's codecs, PDFDocEncoding per ISO 32000-1 Annex D.2; compared only on 0x20-0x7E and on the Latin-1 characters U+00A1-U+00FF; cells whose published value differs between the glyph-name and the code-page convention are excluded and listed under coverage.tables");
     run.assume("extraction: the font dictionary has /Type /Font, /Subtype, /BaseFont and /Encoding <name> (no Differences); the font-variant part adds entries that cannot change what the text is: FirstChar / LastChar / Widths / FontDescriptor, or a /ToUnicode CMap that agrees with the table on every code it lists (complete, or partial as producers write it for the glyphs used so far; a /ToUnicode that contradicts the table is not generated: which of the two wins is outside this property); expected text = decoded text + what extract_text adds by construction (a space after each TJ array, a line feed at ET)");
@@ -1693,12 +2549,14 @@ fn main() {
     part_long_tables(&run, &reps);
     part_extraction(&run, &reps);
     part_multipage(&run, &reps);
+    part_inheritance(&run, &reps);
     part_long_extraction(&run, &reps);
     part_font_variants(&run, &reps);
     part_doc_sequences(&run, &reps);
     run.set("exhaustive_parts", json!({"scalars": true, "strings": true, "totality": true, "table_cells": true, "extraction_single_bytes": true, "extraction_pairs": run.thorough,
                                        "long_text_every_lead_length_below_bound": true, "long_table_strings_every_lead_length_below_bound": true, "font_variants_x_tables_x_repertoire_bytes": true,
-                                       "text_sequences_menu_pairs": true, "document_sequences_ordered_table_pairs": true}));
+                                       "text_sequences_menu_pairs": true, "document_sequences_ordered_table_pairs": true,
+                                       "inheritance_table_pairs_x_depths_x_level_pairs_x_reference_shapes": true, "inheritance_level_assignments": true}));
     run.exhaustive(true);
     run.finish();
 }
@@ -1804,6 +2662,22 @@ fn replay(run: &Run, path: &std::path::Path) -> ! {
             if a != b {
                 eprintln!("MACHINERY: replay not deterministic: {:?} vs {:?}", a, b);
                 std::process::exit(3);
+            }
+            a
+        }
+        Some("tree") => {
+            let t = tree_from_json(&case["tree"]);
+            let orders: Vec<Vec<u32>> = case["orders"].as_array().map(|a| a.iter().map(|o| o.as_array().map(|x| x.iter().map(|v| v.as_u64().unwrap_or(1) as u32).collect()).unwrap_or_default()).collect()).unwrap_or_default();
+            let compress = case["compress"].as_bool().unwrap_or(false);
+            let res_first = case["resources_numbered_first"].as_bool().unwrap_or(false);
+            let a = check_tree(&t, &orders, compress, res_first).1;
+            let b = check_tree(&t, &orders, compress, res_first).1;
+            if a != b {
+                eprintln!("MACHINERY: replay not deterministic: {:?} vs {:?}", a, b);
+                std::process::exit(3);
+            }
+            if a.is_some() {
+                println!("classified as: {:?}", classify_tree(&t, &orders, compress, res_first));
             }
             a
         }
